@@ -17,6 +17,7 @@
 
 #include <unifex/detail/intrusive_queue.hpp>
 #include <unifex/detail/intrusive_stack.hpp>
+#include <unifex/detail/verif_hooks.hpp>
 
 #include <atomic>
 #include <utility>
@@ -63,6 +64,7 @@ public:
   // Returns false if the previous state was active.
   [[nodiscard]] bool try_mark_active() noexcept {
     void* oldValue = producer_inactive_value();
+    UNIFEX_VERIF_YIELD("sched.aq.a_cas");
     return head_.compare_exchange_strong(
         oldValue,
         nullptr,
@@ -81,9 +83,11 @@ public:
   // was transitioned from inactive to active.
   [[nodiscard]] bool enqueue_or_mark_active(Item* item) noexcept {
     void* const inactive = producer_inactive_value();
+    UNIFEX_VERIF_YIELD("sched.aq.m_load");
     void* oldValue = head_.load(std::memory_order_relaxed);
     void* newValue;
     do {
+      UNIFEX_VERIF_YIELD("sched.aq.m_cas");
       if (oldValue == inactive) {
         newValue = nullptr;
       } else {
@@ -102,8 +106,10 @@ public:
   // up the producer.
   [[nodiscard]] bool enqueue(Item* item) noexcept {
     void* const inactive = producer_inactive_value();
+    UNIFEX_VERIF_YIELD("sched.aq.e_load");
     void* oldValue = head_.load(std::memory_order_relaxed);
     do {
+      UNIFEX_VERIF_YIELD("sched.aq.e_cas");
       item->*Next =
           (oldValue == inactive) ? nullptr : static_cast<Item*>(oldValue);
     } while (!head_.compare_exchange_weak(
@@ -114,6 +120,7 @@ public:
   // Dequeue all items. Resetting the queue back to empty.
   // Not valid to call if the producer is inactive.
   [[nodiscard]] intrusive_queue<Item, Next> dequeue_all() noexcept {
+    UNIFEX_VERIF_YIELD("sched.aq.d_load");
     void* value = head_.load(std::memory_order_relaxed);
     if (value == nullptr) {
       // Queue is empty, return empty queue.
@@ -121,6 +128,7 @@ public:
     }
     UNIFEX_ASSERT(value != producer_inactive_value());
 
+    UNIFEX_VERIF_YIELD("sched.aq.d_xchg");
     value = head_.exchange(nullptr, std::memory_order_acquire);
     UNIFEX_ASSERT(value != producer_inactive_value());
     UNIFEX_ASSERT(value != nullptr);
@@ -146,8 +154,10 @@ public:
 
   [[nodiscard]] bool try_mark_inactive() noexcept {
     void* const inactive = producer_inactive_value();
+    UNIFEX_VERIF_YIELD("sched.aq.t_load");
     void* oldValue = head_.load(std::memory_order_relaxed);
     if (oldValue == nullptr) {
+      UNIFEX_VERIF_YIELD("sched.aq.t_cas");
       if (head_.compare_exchange_strong(
               oldValue,
               inactive,
@@ -174,6 +184,7 @@ public:
       return {};
     }
 
+    UNIFEX_VERIF_YIELD("sched.aq.t_xchg");
     void* oldValue = head_.exchange(nullptr, std::memory_order_acquire);
     UNIFEX_ASSERT(oldValue != nullptr);
     UNIFEX_ASSERT(oldValue != producer_inactive_value());
